@@ -30,7 +30,7 @@ ASSUMPTIONS = ['float rounding, nan, inf and -0.0 are not modelled: inputs are d
                'negative ints as SparseVector indices / slice bounds and as SparseArray row / column indices are modelled as the code treats them (coq/C09/Model3.v, part B; listed finding negative-index); negative steps and negative indices in writes to arrays are outside the model',
                'every row of a SparseArray has the same size and dtype (rows are only created by the library from rectangular input)',
                'results are compared with NumPy up to leading axes of length 1 (reduce_ndim drops them by design) and up to bool/float dtype (True = 1.0)',
-               'theorems are about the source with pending_fixes/C09_1..C09_7 applied (model flag lg = false); the kernels of the unrepaired source are kept (lg = true, C09_LEGACY=1) and their defects are stated as C09_legacy_* theorems',
+               'theorems are about the source with pending_fixes/C09_1..C09_7 and C09_9 applied (model flags lg = false, legacy = false; the harness probes a[:, ndarray] and uses the legacy definition on a tree without C09_9); the kernels of the unrepaired source are kept (lg = true, C09_LEGACY=1) and their defects are stated as C09_legacy_* theorems',
                'refinement theorems cover + - * fully and / where NumPy returns; the statements refuted in Props.v (0/0, in-place resize, unchecked shapes/indices, read-only arrays) are known findings',
                'copy_like is generated only between objects of the same kind and shape (the method compares neither, and does not test read_only); '
                'in-place operators with a one-row 2-d operand are compared with NumPy after dropping that axis',
@@ -101,6 +101,18 @@ def build_index(ix):
     if k == 'sl': return slice(ix[1], ix[2], ix[3])
     if k == 'o': return slice(None)
     raise ValueError(k)
+
+_nd = {}
+def nd_legacy():
+    """probe of the tree under test: does a[:, <ndarray with two elements>] raise ValueError (source without pending_fixes/C09_9)?
+    Selects the legacy flag of arrF_get_open_nd and whether the witness of the finding open-row-slice-with-ndarray-columns is replayed."""
+    if 'v' not in _nd:
+        try:
+            env()['SA']([[1.0, 2.0]])[:, np.array([0, 1])]
+            _nd['v'] = False
+        except ValueError:
+            _nd['v'] = True
+    return _nd['v']
 
 def build_zindex(ix):
     """python-int indices (possibly negative): ['zi', k] | ['zt', k] | ['zl', [k...]] | ['zn', [k...]] | ['zs', a, b, c]"""
@@ -528,7 +540,7 @@ def cyop(op):
     if n == 'zget': return f'(YGet {cnat(op[1])} {czindex(op[2], op[-1]["n"])})'
     if n == 'zset': return f'(YSet {cnat(op[1])} {czindex(op[2], op[-1]["n"])} {carg(op[3])})'
     if n == 'zaget': return f'(YAGet {cnat(op[1])} {czaindex(op[2])})'
-    if n == 'agetnd': return f'(YAGetNd {cnat(op[1])} {cindex(op[2], op[-1]["n"])})'
+    if n == 'agetnd': return f'(YAGetNd {cbool(nd_legacy())} {cnat(op[1])} {cindex(op[2], op[-1]["n"])})'
     return f'(YOp {cop(op)})'
 def cop(op):
     n = op[0]
@@ -1659,5 +1671,6 @@ PROPOSED_WITNESSES = [
 def _listed():
     import vf
     known = vf.load_known()
-    return [w for w in PROPOSED_WITNESSES if (ID, w['key']) in known]
+    return [w for w in PROPOSED_WITNESSES if (ID, w['key']) in known
+            and not (w['key'] == 'C09:open-row-slice-with-ndarray-columns' and not nd_legacy())]      # repaired by pending_fixes/C09_9
 WITNESSES += _listed()
